@@ -72,21 +72,21 @@ ReqsC03 == SetToSeqD(
 \* universe c01: token-boundary, precedence, tags, badfilter
 W(s) == [R0 EXCEPT !.body = B(s)]
 PoolC01 == <<
-  W("ab/ba/bab"), W("ba/abb/ab"), W("/ab/"), W("ab"), W("bab^"), W("/abb*ba"),
+  W("ab/ba/bab"), W("ba/abb/ab"), W("/ab/a"), W("ab"), W("bab^"), W("/abb*ba"),
   [W("ab.ba/ab") EXCEPT !.left = "dpipe"], [W("ab.ba^") EXCEPT !.left = "dpipe"],
   [W("ba^") EXCEPT !.left = "dpipe"], [W("ab.ba/bab") EXCEPT !.left = "dpipe", !.right = TRUE],
   [W("https://ab.ba/ab") EXCEPT !.left = "pipe"], [W("/bab") EXCEPT !.right = TRUE],
-  [W("http://") EXCEPT !.left = "pipe"],
+  [W("http://") EXCEPT !.left = "pipe"], [W("bab") EXCEPT !.right = TRUE],
   [W("ab/ba") EXCEPT !.exc = TRUE], [W("/bab") EXCEPT !.exc = TRUE],
   [W("ab.ba^") EXCEPT !.left = "dpipe", !.exc = TRUE],
-  [W("/ab/") EXCEPT !.important = TRUE], [W("bab") EXCEPT !.important = TRUE, !.tag = "t1"],
-  [W("/ab/") EXCEPT !.tag = "t1"], [W("abb") EXCEPT !.tag = "t2"],
-  [W("/ab/") EXCEPT !.exc = TRUE, !.tag = "t1"], [W("ab/ba") EXCEPT !.exc = TRUE, !.tag = "t2"],
-  [W("ab") EXCEPT !.dom = {"ba.com"}], [W("/ab/") EXCEPT !.ndom = {"ba.com"}],
+  [W("/ab/a") EXCEPT !.important = TRUE], [W("bab") EXCEPT !.important = TRUE, !.tag = "t1"],
+  [W("/ab/a") EXCEPT !.tag = "t1"], [W("abb") EXCEPT !.tag = "t2"],
+  [W("/ab/a") EXCEPT !.exc = TRUE, !.tag = "t1"], [W("ab/ba") EXCEPT !.exc = TRUE, !.tag = "t2"],
+  [W("ab") EXCEPT !.dom = {"ba.com"}], [W("/ab/a") EXCEPT !.ndom = {"ba.com"}],
   [W("bab") EXCEPT !.dom = {"ba.com", "abb.com"}], [W("ab") EXCEPT !.party = "3p"],
-  [W("/ab/") EXCEPT !.pos = {"script"}], [W("ab") EXCEPT !.neg = {"script"}],
-  [W("ab/ba/bab") EXCEPT !.badfilter = TRUE], [W("/ab/") EXCEPT !.badfilter = TRUE],
-  [W("/ab/") EXCEPT !.important = TRUE, !.badfilter = TRUE],
+  [W("/ab/a") EXCEPT !.pos = {"script"}], [W("ab") EXCEPT !.neg = {"script"}],
+  [W("ab/ba/bab") EXCEPT !.badfilter = TRUE], [W("/ab/a") EXCEPT !.badfilter = TRUE],
+  [W("/ab/a") EXCEPT !.important = TRUE, !.badfilter = TRUE],
   [W("ab/ba") EXCEPT !.exc = TRUE, !.badfilter = TRUE],
   [W("ab") EXCEPT !.left = "dpipe", !.body = B("ab.ba^"), !.mkind = "redirect", !.mval = "r1"],
   [W("/bab") EXCEPT !.mkind = "redirect-rule", !.mval = "r2"],
@@ -98,7 +98,7 @@ ReqsC01 == <<
   MkReq("https", "ab.ba", "/bab/ba/bab", "script", "ab.ba"),
   MkReq("https", "x.com", "/bab/ba/bab", "image", "ba.com"),
   MkReq("https", "x.com", "/ab/ba/babb", "script", ""),
-  MkReq("https", "x.com", "/ab/", "script", "x.com"),
+  MkReq("https", "x.com", "/ab/a", "script", "x.com"),
   MkReq("https", "x.com", "/bab/", "script", "s.ba.com"),
   MkReq("https", "x.com", "/abab/x", "image", "abb.com"),
   MkReq("http", "bab.ab.ba", "/bab", "script", "x.com"),
@@ -108,10 +108,104 @@ ReqsC01 == <<
   MkReq("https", "x.com", "/babb-ba", "other", ""),
   MkReq("https", "ab.ba", "/", "document", "ab.ba"),
   MkReq("https", "s.ab.ba", "/x?ab=1&ba=2", "sub_frame", "x.com"),
-  MkReq("wss", "ab.ba", "/ab/", "websocket", "x.com"),
+  MkReq("wss", "ab.ba", "/ab/a", "websocket", "x.com"),
   MkReq("https", "xab.ba", "/ab/ba", "script", "x.com"),
   MkReq("https", "x.com", "/x/ab.ba/ab", "script", "x.com"),
-  MkReq("ftp", "ab.ba", "/ab/ba/bab", "script", "ab.ba")
+  MkReq("ftp", "ab.ba", "/ab/ba/bab", "script", "ab.ba"),
+  MkReq("https", "x.com", "/ab/abab", "script", "x.com")
+>>
+
+--------------------------------------------------------------------------
+\* universe c01d: rules without usable tokens are dispatched into one bucket per $domain= value
+\* and shared between buckets; near-twin rules that differ only in tag / domain polarity
+D1(s) == [R0 EXCEPT !.body = B(s)]
+PoolC01d == <<
+  [D1("a") EXCEPT !.pos = {"script"}, !.dom = {"ba.com", "abb.com"}],
+  [D1("a") EXCEPT !.pos = {"image"}, !.dom = {"ba.com"}],
+  [D1("a") EXCEPT !.pos = {"font"}, !.dom = {"ba.com"}],
+  [D1("b") EXCEPT !.dom = {"abb.com", "x.com"}],
+  [D1("a") EXCEPT !.exc = TRUE, !.dom = {"abb.com", "ba.com"}, !.pos = {"script"}],
+  [D1("a") EXCEPT !.dom = {"ba.com"}, !.ndom = {"s.ba.com"}],
+  [D1("/ab/a") EXCEPT !.tag = "t1"], [D1("/ab/a") EXCEPT !.tag = "t2"],
+  [D1("ab") EXCEPT !.dom = {"ba.com"}], [D1("ab") EXCEPT !.ndom = {"ba.com"}],
+  [D1("/ab/a") EXCEPT !.exc = TRUE, !.tag = "t1"], [D1("/ab/a") EXCEPT !.exc = TRUE, !.tag = "t2"],
+  [D1("ab") EXCEPT !.pos = {"image"}], [D1("ab") EXCEPT !.neg = {"image"}]
+>>
+ReqsC01d == SetToSeqD(
+  { MkReq("https", "x.com", "/ab/a", al, src) : al \in {"script", "image", "font"},
+      src \in {"ba.com", "s.ba.com", "abb.com", "x.com", "b.com", ""} })
+
+--------------------------------------------------------------------------
+\* universe c07: every rule category a tag combines with x {untagged, t1, t2}
+TG(r, t) == [r EXCEPT !.tag = t]
+PoolC07 == SetToSeqD(
+  { TG(x, t) : t \in {"", "t1", "t2"},
+      x \in { W("/ab/a"), [W("/ab/a") EXCEPT !.exc = TRUE], [W("/ab/a") EXCEPT !.important = TRUE],
+              [W("ab.ba^") EXCEPT !.left = "dpipe", !.mkind = "csp", !.mval = "d1"],
+              [W("ab.ba^") EXCEPT !.left = "dpipe", !.mkind = "csp", !.mval = "d1", !.exc = TRUE] } }
+  \cup { [W("/ab-") EXCEPT !.tag = "t1"], [W("/ab_") EXCEPT !.tag = "t2"], W("/ab.") })
+ReqsC07 == <<
+  MkReq("https", "ab.ba", "/ab/a", "script", "x.com"),
+  MkReq("https", "ab.ba", "/", "document", "x.com"),
+  MkReq("https", "ab.ba", "/ab-", "script", "x.com"),
+  MkReq("https", "ab.ba", "/ab_", "script", "x.com"),
+  MkReq("https", "ab.ba", "/ab.", "script", "x.com")
+>>
+
+--------------------------------------------------------------------------
+\* universe c04b: badfilter twins and near-twins.  Base rules y; for each, z = y$badfilter and
+\* variants of z that differ from y in exactly one matching option or in the pattern.
+BaseC04 == {
+  W("/ab/a"), [W("/ab/a") EXCEPT !.pos = {"script"}], [W("/ab/a") EXCEPT !.party = "3p"],
+  [W("/ab/a") EXCEPT !.dom = {"ba.com"}], [W("/ab/a") EXCEPT !.ndom = {"ba.com"}],
+  [W("/ab/a") EXCEPT !.dom = {"ba.com"}, !.ndom = {"s.ba.com"}],
+  [W("/ab/a") EXCEPT !.important = TRUE], [W("/ab/a") EXCEPT !.exc = TRUE],
+  [W("ab.ba^") EXCEPT !.left = "dpipe"], [W("ab.ba/ab") EXCEPT !.left = "dpipe"],
+  [W("ab/") EXCEPT !.mkind = "redirect", !.mval = "r1"], [W("/ab/a") EXCEPT !.mkind = "redirect", !.mval = "r2"],
+  [W("/ab/a") EXCEPT !.tag = "t1"] }
+BadOf(y) == [y EXCEPT !.badfilter = TRUE]
+VariantsC04 ==
+  { BadOf(y) : y \in BaseC04 }
+  \cup { BadOf([W("/ab/a") EXCEPT !.pos = {"image"}]), BadOf([W("/ab/a") EXCEPT !.party = "1p"]),
+         BadOf([W("/ab/a") EXCEPT !.dom = {"abb.com"}]), BadOf(W("/ab")),
+         BadOf([W("/ab/a") EXCEPT !.dom = {"ba.com"}, !.ndom = {"x.ba.com"}]),
+         BadOf([W("/ab/a") EXCEPT !.dom = {"ba.com", "abb.com"}]), BadOf(W("ab/")),
+         BadOf([W("/ab/a") EXCEPT !.left = "pipe"]), BadOf([W("/ab/a") EXCEPT !.right = TRUE]),
+         BadOf([W("ab.ba") EXCEPT !.left = "dpipe"]),
+         BadOf([W("/ab/a") EXCEPT !.mkind = "redirect-rule", !.mval = "r1"]),
+         BadOf([W("b/") EXCEPT !.mkind = "redirect", !.mval = "r1a"]),
+         BadOf([W("/ab/a") EXCEPT !.tag = "t2"]), BadOf([W("/ab/a") EXCEPT !.neg = {"script"}]) }
+PoolC04b == SetToSeqD(BaseC04) \o SetToSeqD(VariantsC04)
+ReqsC04b == <<
+  MkReq("https", "ab.ba", "/ab/a", "script", "ba.com"),
+  MkReq("https", "ab.ba", "/ab/a", "image", "x.com"),
+  MkReq("https", "x.com", "/ab/a", "script", "x.com"),
+  MkReq("https", "x.com", "/ab/a", "script", "s.ba.com"),
+  MkReq("https", "ab.ba", "/ab", "script", "abb.com")
+>>
+
+--------------------------------------------------------------------------
+\* universe c05: same-bucket near-twins that differ in exactly one attribute (what the optimizer
+\* must not fuse, or must fuse without changing a verdict)
+PoolC05 == <<
+  W("/ab-"), W("/ab_"), W("/ab."), W("-ab-"),
+  [W("/ab-") EXCEPT !.exc = TRUE], [W("/ab_") EXCEPT !.exc = TRUE, !.tag = "t1"], [W("/ab.") EXCEPT !.exc = TRUE],
+  [W("/ab-") EXCEPT !.important = TRUE], [W("/ab_") EXCEPT !.important = TRUE, !.tag = "t1"],
+  [W("/ab_") EXCEPT !.tag = "t1"], [W("/ab.") EXCEPT !.tag = "t2"],
+  W("/ab^"), W("/ab*ba"), [W("/ab-") EXCEPT !.right = TRUE], [W("https://ab.ba/ab-") EXCEPT !.left = "pipe"],
+  [W("/ab_") EXCEPT !.pos = {"image"}], [W("/ab.") EXCEPT !.party = "3p"],
+  [W("/ab-") EXCEPT !.dom = {"ba.com"}], [W("ab.ba/ab_") EXCEPT !.left = "dpipe"],
+  [W("/ab-") EXCEPT !.mkind = "redirect", !.mval = "r1"], [W("/ab_") EXCEPT !.mkind = "redirect-rule", !.mval = "r2"],
+  [W("/ab_") EXCEPT !.mkind = "removeparam", !.mval = "ab"], [W("/ab-") EXCEPT !.mkind = "removeparam", !.mval = "ba"]
+>>
+ReqsC05 == <<
+  MkReq("https", "ab.ba", "/ab-", "script", "x.com"),
+  MkReq("https", "ab.ba", "/ab_", "script", "x.com"),
+  MkReq("https", "ab.ba", "/ab.", "image", "ab.ba"),
+  MkReq("https", "ab.ba", "/x-ab-", "script", "ba.com"),
+  MkReq("https", "ab.ba", "/ab/ba", "script", "x.com"),
+  MkReq("https", "ab.ba", "/ab-x/ba?ab=1&ba=2", "xhr", "x.com"),
+  MkReq("https", "x.com", "/ab_", "image", "x.com")
 >>
 
 --------------------------------------------------------------------------
@@ -171,12 +265,12 @@ ReqsC15 == SetToSeqD(
       src \in {"ab.ba", "x.com", "ba.com", ""} })
 
 --------------------------------------------------------------------------
-Pool == CASE U = "c01" -> PoolC01 [] U = "c13" -> PoolC13 [] U = "c14" -> PoolC14
+Pool == CASE U = "c01" -> PoolC01 [] U = "c01d" -> PoolC01d [] U = "c07" -> PoolC07 [] U = "c04b" -> PoolC04b [] U = "c05" -> PoolC05 [] U = "c13" -> PoolC13 [] U = "c14" -> PoolC14
           [] U = "c15" -> PoolC15 [] OTHER -> <<>>
-Reqs == CASE U = "c03" -> ReqsC03 [] U = "c01" -> ReqsC01 [] U = "c13" -> ReqsC13
+Reqs == CASE U = "c03" -> ReqsC03 [] U = "c01" -> ReqsC01 [] U = "c01d" -> ReqsC01d [] U = "c07" -> ReqsC07 [] U = "c04b" -> ReqsC04b [] U = "c05" -> ReqsC05 [] U = "c13" -> ReqsC13
           [] U = "c14" -> ReqsC14 [] U = "c15" -> ReqsC15
-Res == IF U = "c13" \/ U = "c01" THEN ResC13 ELSE {}
-Tags == IF U \in {"c01", "c15"} THEN {"t1", "t2"} ELSE {}
+Res == IF U \in {"c13", "c01", "c04b", "c05"} THEN ResC13 ELSE {}
+Tags == IF U \in {"c01", "c01d", "c07", "c15", "c04b", "c05"} THEN {"t1", "t2"} ELSE {}
 
 \* increasing index sequences of length <= K over 1..n
 RECURSIVE IncSeqs(_, _, _)
@@ -234,7 +328,7 @@ CaseRecord(f) ==
       mc == [q \in DOMAIN Reqs |-> IdealCspH(L, T, Reqs[q], [i \in DOMAIN L |-> EngineHits(f, i, q)])]
       \* attribution data only where the model leaves the Ideal
       devq == {q \in DOMAIN Reqs : ~(mv[q] \subseteq iv[q]) \/ ~(mc[q] \subseteq ic[q])}
-      base == [k |-> "net", u |-> U, rules |-> [i \in DOMAIN L |-> RuleText(L[i])], tags |-> T,
+      base == [k |-> "net", u |-> U, mono |-> (U \in {"c01", "c01d", "c05"}), rules |-> [i \in DOMAIN L |-> RuleText(L[i])], tags |-> T,
                v |-> iv, csp |-> ic,
                dev |-> SetToSeqD({ [q |-> q, names |-> UNION {DevHit(L[i], Reqs[q]) : i \in DOMAIN L}, mv |-> mv[q], mcsp |-> mc[q]] : q \in devq })]
       mh == [q \in DOMAIN Reqs |-> [i \in DOMAIN L |->
@@ -250,6 +344,20 @@ CaseRecord(f) ==
 \* engine level (Blocker::check / get_csp_directives gate on is_supported); the per-rule matcher is
 \* a building block that is only ever handed supported requests, so it is left unspecified there.
 
+\* C04 (M1): rule addition is monotone in the Ideal, for every consistent resolution of the
+\* three-valued hits: removing an exception rule never unblocks, removing a blocking rule never blocks
+Eligible(r) == ~r.badfilter /\ r.mkind \in {"none", "redirect", "redirect-rule"} /\ ~r.ghide
+Without(sq, i) == [j \in 1..(Len(sq) - 1) |-> IF j < i THEN sq[j] ELSE sq[j + 1]]
+BlockedSet(l, h, q) == {x.matched : x \in VerdictsFor(l, h, T, Res, Reqs[q])}
+MonotoneIdeal(f) ==
+  \A i \in DOMAIN L : Eligible(L[i]) =>
+    \A q \in DOMAIN Reqs :
+      \A h \in HitVectorsH([k \in DOMAIN L |-> f[q][k].ideal]) :
+        LET with == BlockedSet(L, h, q)
+            wout == BlockedSet(Without(L, i), Without(h, i), q) IN
+        IF L[i].exc THEN (TRUE \in with => TRUE \in wout)      \* adding an exception never blocks
+        ELSE (TRUE \in wout => TRUE \in with)                  \* adding a blocking rule never unblocks
+
 \* M1 (the code-shaped hit model refines the Ideal outside the named deviations) and the
 \* M2 export, in one pass over the fact table
 RefinesAndExports ==
@@ -260,6 +368,7 @@ RefinesAndExports ==
           \/ f[q][i].impl \in f[q][i].ideal
           \/ DevHit(L[i], Reqs[q]) # {}
     /\ \A q \in DOMAIN Reqs : IdealVerdictsH(L, T, Res, Reqs[q], [i \in DOMAIN L |-> f[q][i].ideal]) # {}
+    /\ MonotoneIdeal(f)
     /\ PrintT(ToJson(CaseRecord(f)))
 
 ASSUME PrintT(ToJson([k |-> "universe", u |-> U,
